@@ -17,8 +17,8 @@ yields ub = 0 for every zone whose first rank exceeds the cut-off.
 that calls evaluate_at depends on the `limit` argument (matches deeper in a zone than the remaining limit would be masked out as if they had failed the predicate).
 Does NOT decide: the remaining arithmetic of the RLTE planner (which min/max a partial ladder yields, zone sizes after compaction), slice positions, typed order of ScalarValue::compare (value level).
 """
-FLOOR = 7
-REQUIRED = ["C10.a", "C10.b", "C10.c", "C10.d", "C10.e1", "C10.e2", "C10.f"]
+FLOOR = 8
+REQUIRED = ["C10.a", "C10.b", "C10.c", "C10.d", "C10.e1", "C10.e2", "C10.f", "C10.g"]
 
 COPIES = ["engine::core::read::segment_query_runner::compare_scalar_values",
           "engine::core::read::flow::operators::memtable_source::compare_scalar_values",
@@ -259,3 +259,41 @@ def run(ctx):
                 bad.append(("predicate-loop-limited", "a loop that evaluates a predicate per row (%s) runs over a range that depends on LIMIT" % sp(b, h.bb), None))
         return bad
     ctx.run("C10.f", "K7 PROV", "ConditionEvaluator::evaluate_zones_with_limit", "LIMIT never narrows the rows a predicate is evaluated on", f_)
+
+    def g_(inst):
+        """The shard-level sort and both ordered merges look the ORDER BY column up by name, so a RETURN list that does not name it
+        must neither keep it from being loaded nor project it away before the merges."""
+        bad = []
+        b = F.method("SelectionProjection", "ProjectionStrategy", "compute")
+        adds = [c for c in b.calls if not c.cleanup and re.search(r"ProjectionColumns::(add|add_many)$", c.nname)]
+        if len(adds) < 4:
+            raise AnchorMissing("ProjectionColumns::add / add_many calls in SelectionProjection::compute (%d)" % len(adds))
+        ob = [c for c in b.calls if not c.cleanup and re.search(r"QueryPlan::order_by\w*$", c.nname)]
+        obl = set()
+        for c in ob:
+            obl |= {l for l, _ in b.flow_forward(c.dest)}
+        hit = [c for c in adds if any((wide_all(b, a_) | b._origin_locals(a_)) & obl for a_ in c.args[1:])]
+        inst.sites += [sp(b, c.bb) for c in hit]
+        if not hit:
+            bad.append(("order-field-not-loaded", "SelectionProjection::compute never adds the ORDER BY field: a RETURN list that does not name it keeps the sort column from being loaded", None))
+        callers = []
+        for k in F.keys():
+            if k.startswith("bin:") or "shard_pipeline" not in k:
+                continue
+            cb = F.fn_exact(k)
+            for c in cb.calls:
+                if not c.cleanup and c.nname.endswith("shard_pipeline::compute_return_projection"):
+                    callers.append((cb, c))
+        if len(callers) < 2:
+            raise AnchorMissing("callers of compute_return_projection (%d, confirmed 2)" % len(callers))
+        for cb, c in callers:
+            obl2 = set()
+            for c2 in cb.calls:
+                if not c2.cleanup and re.search(r"QueryPlan::order_by\w*$", c2.nname):
+                    obl2 |= {l for l, _ in cb.flow_forward(c2.dest)}
+            ok = any((wide_all(cb, a_) | cb._origin_locals(a_)) & obl2 for a_ in c.args)
+            inst.sites.append("%s passes the order field: %s" % (sp(cb, c.bb), ok))
+            if not ok:
+                bad.append(("order-field-projected-away:%s" % cb.key.split("::{closure")[0].split("::")[-1], "%s builds the RETURN projection without the ORDER BY field: the column the ordered merges look up is projected away (500 'order by field missing')" % cb.key.split("::{closure")[0].split("::")[-1], sp(cb, c.bb)))
+        return bad
+    ctx.run("C10.g", "K7 PROV", "SelectionProjection::compute / shard_pipeline::compute_return_projection", "a narrowing RETURN keeps the ORDER BY column", g_)
